@@ -524,7 +524,10 @@ fn mask_build(cfg: &[u16]) -> Built {
     // operator and configured-user masks derived from real sources
     let om = derive_mask(&src(s.pick(users)), &mut s);
     c.opers.push(OperSpec { name: "op0".into(), password: "operpw0".into(), mask: Some(om) });
-    let um = derive_mask(&src(1 + s.pick(users - 1)), &mut s);
+    // (half of the time the configured user's mask constrains just the nick: registering under
+    // that user name works with exactly one nick, wherever the connection comes from)
+    // (the nick is one nobody holds at the start, so that new connections can contend for it)
+    let um = if s.chance(50) { format!("n{}!*@*", users + s.pick(8 - users)) } else { derive_mask(&src(1 + s.pick(users - 1)), &mut s) };
     c.users.push(UserSpec { name: "u1".into(), nick: "n1".into(), password: None, mask: Some(um) });
     let mut prof = Profile::base().with(&[
         (K::ModeChan, 26),
@@ -535,8 +538,15 @@ fn mask_build(cfg: &[u16]) -> Built {
         (K::Part, 6),
         (K::Nick, 4),
         (K::Privmsg, 6),
+        // registrations under the configured user name, also contended and retried under another
+        // nick: the mask is matched against the source the connection has when it completes
+        (K::Contend, 5),
+        (K::RegLine, 6),
+        (K::RawConnect, 2),
+        (K::NewUser, 3),
     ]);
     prof.oper_names.push(("op0".into(), "operpw0".into()));
+    prof.reg_usernames.push("u1".into());
     let mut setup = vec![];
     setup.push(("n0".to_string(), "JOIN #c0".to_string()));
     if s.chance(60) {
@@ -641,7 +651,7 @@ pub fn replay_c13_sim(part: &str, input: &Value) -> Option<Result<Result<(), Vio
 }
 
 pub fn run_c14_wire(ctx: &RunCtx) -> Vec<PartOutcome> {
-    let n = ctx.tier.pick(4_000, 60_000);
+    let n = ctx.tier.pick(8_000, 100_000);
     vec![explore(ctx, "wire_agreement", n, || crate::scenario::sc_strategy(MASKS.ncfg, MASKS.max_ops), |c: &crate::scenario::ScCase, st: &mut Stats| run_case(&MASKS, c, st))]
 }
 
